@@ -200,4 +200,46 @@ theorem mem_wAtoms (ts : List WTok) (n : Nat) : n ∈ wAtoms ts → ∃ a, WTok.
   | atom k a => simp only [Option.some.injEq] at hn; subst hn; exact ⟨a, ht⟩
   | _ => simp at hn
 
+theorem bracketH_hcount (m : Mol) (opts : Opts) (n : Nat) (atom : Atom) (sym : Str) (anySmi : Bool)
+    (h : (bracketH m opts n atom sym anySmi).1 = true) : (bracketH m opts n atom sym anySmi).2 = atom.implH.getD 0 := by
+  unfold bracketH at h ⊢
+  simp only at h ⊢
+  split
+  · rfl
+  · split
+    · rfl
+    · split
+      · rename_i h3
+        simp only [Bool.and_eq_true, beq_iff_eq] at h3
+        exact h3.1.1.symm
+      · split
+        · rfl
+        · rename_i h1 h2 h3 h4
+          rw [if_neg h1, if_neg h2, if_neg h3, if_neg h4] at h
+          cases h
+
+/-- a bracket atom token also fixes the hydrogen count -/
+theorem atom_token_hcount {m₁ m₂ : Mol} {opts : Opts} {sc₁ sc₂ : SCtx} {n : Nat} {a : ATok}
+    (h₁ : formatAtom m₁ opts sc₁ n = .ok a) (h₂ : formatAtom m₂ opts sc₂ n = .ok a) (hb : a.bracket = true) :
+    ∃ x y, m₁.atom? n = some x ∧ m₂.atom? n = some y ∧ x.implH.getD 0 = y.implH.getD 0 := by
+  have parts : ∀ (m : Mol) (sc : SCtx), formatAtom m opts sc n = .ok a →
+      ∃ x, m.atom? n = some x ∧ a.hcount = x.implH.getD 0 := by
+    intro m sc h
+    unfold formatAtom at h
+    split at h
+    · cases h
+    · rename_i x hx
+      split at h
+      · cases h
+      · split at h
+        · cases h
+        · split at h
+          · cases h
+          · simp only [Except.ok.injEq] at h
+            subst h
+            exact ⟨x, hx, bracketH_hcount _ _ _ _ _ _ hb⟩
+  obtain ⟨x, hx, e1⟩ := parts m₁ sc₁ h₁
+  obtain ⟨y, hy, e2⟩ := parts m₂ sc₂ h₂
+  exact ⟨x, y, hx, hy, e1.symm.trans e2⟩
+
 end ChythonModel.Proofs.C02
